@@ -92,7 +92,8 @@ BASE_FLAGS = ["-std=gnu++20", "-O2", "-DNDEBUG", "-DSMOOTH_VERIF", "-w"]
 def build_one(src, defs, extra_flags=(), libs=(), cxx=None):
     """compile harness/<src> with -D<defs>; returns path of the cached executable"""
     cxx = cxx or CXX
-    srcs = [os.path.join(HARNESS, f) for f in sorted(os.listdir(HARNESS))]
+    # the cache key covers the translation unit itself and every header of the harness directory
+    srcs = [os.path.join(HARNESS, f) for f in sorted(os.listdir(HARNESS)) if f == src or f.endswith((".hpp", ".h", ".inc"))]
     key = hashlib.sha256(("|".join([repo_hash(), _hash_tree(srcs), src, cxx] + list(defs) + list(extra_flags) + list(libs))).encode()).hexdigest()[:20]
     bdir = os.path.join(BUILD, "bin")
     os.makedirs(bdir, exist_ok=True)
